@@ -53,6 +53,9 @@ def run_impl(op, inp):
         with lock:
             log.append((os.getpid(), threading.get_ident(), who))
         time.sleep(rng.random() * 0.0006)
+        slow = inp.get("slow")
+        if slow and who == slow[0]:
+            time.sleep(slow[1])
         cmd = apdu[1]
         if cmd == 0x04:
             return ("d", key_for(apdu[2:]))
@@ -106,10 +109,11 @@ def run_impl(op, inp):
     with lock:
         del log[:]          # forget the bring-up exchanges
     replies = {}
+    patience = (inp["slow"][1] * 12 + 30) if inp.get("slow") else 0
 
     def client(i, req):
         try:
-            s = socket.create_connection(("127.0.0.1", port), timeout=20)
+            s = socket.create_connection(("127.0.0.1", port), timeout=20 + patience)
             s.sendall(json.dumps(req).encode() + b"\n")
             buf = b""
             while not buf.endswith(b"\n"):
@@ -132,7 +136,7 @@ def run_impl(op, inp):
         threads.append(th)
         th.start()
     for th in threads:
-        th.join(30)
+        th.join(30 + patience)
     srv.server.shutdown()
     t.join(10)
     # replies: each client must have got the answer to its own request
@@ -179,6 +183,31 @@ def gen(tier, rng):
                 r["udValue"] = bytes(rng.getrandbits(8) for _ in range(16)).hex()
             reqs.append(r)
         out.append(Case(OP, {"requests": reqs, "seed": rng.getrandbits(32)}, stream="sockets", clients=k))
+    return out
+
+
+def search(bad_cases, rng):
+    """the obligation about the handler broke (or a run disagreed with the model): look for a failing
+    schedule with one slow request — its total device time beyond every numeric constant of comm/server.py
+    (a join / socket time-out there is the window a hand-over to a helper thread would open)"""
+    import ast
+    import os
+    consts = [1.0]
+    try:
+        src = open(os.path.join(os.environ["REPO_ROOT"], "middleware", "comm", "server.py")).read()
+        for n in ast.walk(ast.parse(src)):
+            if isinstance(n, ast.Constant) and isinstance(n.value, (int, float)) and not isinstance(n.value, bool) \
+                    and 0 < n.value <= 120:
+                consts.append(float(n.value))
+    except Exception:
+        pass
+    out = list(gen("quick", rng))
+    for total in sorted(set(consts)):
+        reqs = [{"command": "blockchainState", "version": 5},
+                {"command": "blockchainParameters", "version": 5},
+                {"command": "blockchainState", "version": 5}]
+        out.insert(0, Case(OP, {"requests": reqs, "seed": rng.getrandbits(32), "slow": [0, (total + 4.0) / 9]},
+                           stream="slow-request", clients=3))
     return out
 
 
